@@ -211,7 +211,12 @@ func newLazyCallReq(f *Frame) (*lazyCallReq, error) {
 
 	// csumtype:1 (csum:4){0,1} arg1~2 arg2~2 arg3~2
 	cr.checksumTypeOffset = uint16(rbuf.BytesRead())
-	cr.checksumType = ChecksumType(rbuf.ReadSingleByte())
+	checksumType := ChecksumType(rbuf.ReadSingleByte())
+	if checksumType >= checksumCount {
+		// The type byte indexes the checksum pools, so it must be validated.
+		return nil, errUnknownChecksumType
+	}
+	cr.checksumType = checksumType
 	rbuf.SkipBytes(cr.checksumType.ChecksumSize())
 
 	// arg1~2
